@@ -14,6 +14,16 @@ def Storage.toFun {n : Nat} (s : Storage n) : Fin n → ℤ := s.get
 /-- the matrix a model matrix denotes: entry `(i, j)` is `at_r_c<i, j>` -/
 def Mat.toMatrix {r c : Nat} (m : Mat r c) : Matrix (Fin r) (Fin c) ℤ := Matrix.of fun i j => m.atRC i j
 
+/-- a storage produced by `from_array` (every result type `static_<…>`) -/
+def Storage.IsStatic {n : Nat} (s : Storage n) : Prop := ∃ a, s = Storage.static a
+
+/-- a matrix whose storage is static (every result type `static_<T, R, C>`) -/
+def Mat.IsStatic {r c : Nat} (m : Mat r c) : Prop := m.s.IsStatic
+
+end Fcppt.C14
+
+namespace Fcppt.C14.Lemma
+
 @[simp] theorem Mat.toMatrix_apply {r c : Nat} (m : Mat r c) (i : Fin r) (j : Fin c) : m.toMatrix i j = m.atRC i j := rfl
 @[simp] theorem Storage.toFun_apply {n : Nat} (s : Storage n) (i : Fin n) : s.toFun i = s.get i := rfl
 
@@ -37,8 +47,6 @@ def Mat.toMatrix {r c : Nat} (m : Mat r c) : Matrix (Fin r) (Fin c) ℤ := Matri
 
 @[simp] theorem atI_eq {n : Nat} (v : Vec n) (i : Fin n) : atI v i = v.get i := rfl
 
-/-- a storage produced by `from_array` (every result type `static_<…>`) -/
-def Storage.IsStatic {n : Nat} (s : Storage n) : Prop := ∃ a, s = Storage.static a
 
 theorem isStatic_fromArray {n : Nat} (a : Vector Int n) : (fromArray a).IsStatic := ⟨a, rfl⟩
 theorem isStatic_init {n : Nat} (f : Fin n → Int) : (init f).IsStatic := ⟨_, rfl⟩
@@ -75,7 +83,6 @@ theorem index_mod {c : Nat} (i : Nat) (j : Fin c) : (i * c + j.val) % c = j.val 
 @[simp] theorem toMatrix_init {r c : Nat} (f : Fin r → Fin c → Int) : (Mat.init f).toMatrix = Matrix.of f := by
   ext i j; simp
 
-def Mat.IsStatic {r c : Nat} (m : Mat r c) : Prop := m.s.IsStatic
 
 theorem Mat.isStatic_init {r c : Nat} (f : Fin r → Fin c → Int) : (Mat.init f).IsStatic := ⟨_, rfl⟩
 
@@ -103,4 +110,4 @@ theorem fold_add_eq_sum {n : Nat} (g : Fin n → ℤ) : fold (n := n) 0 (fun i s
 theorem allOf_iff {n : Nat} (f : Fin n → Bool) : allOf f = true ↔ ∀ i, f i = true := by
   simp [allOf]
 
-end Fcppt.C14
+end Fcppt.C14.Lemma
